@@ -45,3 +45,11 @@ def run(ctx):
                        "every path (shared with C16 OPS-1)", floor=16)
     from rules import timeops
     timeops.check_ops(rep, ctx.prog("default"), "MEAS-6")
+    rep.rule("MEAS-7", "every effect of handle_sync / handle_follow_up / handle_delay_resp requires the sender to be the "
+                       "selected parent (and the requester to be this port) - shared with C07 NI-2/NI-3", floor=10)
+    from rules import c07 as _c07, c16 as _c16
+    from sa.effects import effects as _effects
+    _c07.check_parent_gates(rep, ctx.prog("default"), _effects(ctx.prog("default")), rid2="MEAS-7", rid3="MEAS-7")
+    rep.rule("MEAS-8", "wire timestamps enter the measurement through a conversion that cannot wrap (seconds * 10^9 in >= 80 "
+                       "bits), time differences on signed operands - shared with C16 EXACT-1", floor=2)
+    _c16.check_exact(rep, ctx.prog("default"), "MEAS-8")
